@@ -1352,6 +1352,8 @@ impl ServerSession {
             Ok(duration) => {
                 let milliseconds =
                     (duration.as_secs() * 1000) + (duration.subsec_nanos() as u64 / 1_000_000);
+                #[cfg(feature = "verif_hooks")]
+                let milliseconds = ::verif_hooks::elapsed_ms(milliseconds);
 
                 // Casting to u32 should auto-wrap the value as expected.  If not a stream will probably
                 // break after 49 days but testing shows it should wrap
